@@ -256,3 +256,44 @@ func (g *Gen) libStrExpr(depth int) *E {
 		return &E{K: "index", Ty: TString, X: sp, I: lit(TInt, 0)}
 	}
 }
+
+// addAppendDemo: builtins and conversions as the sole operand of return (return append(s, x),
+// return append(s, t...), return len(s), return uint8(x)), called in statement, argument and
+// nested positions.
+func (g *Gen) addAppendDemo() *S {
+	r := g.r
+	p := g.prog
+	tag := fmt.Sprintf("%d", len(p.Funcs))
+	ts := SliceOf(TInt)
+	sv, tv, xv := v("s", ts), v("t", ts), v("x", TInt)
+	app := func(x *E, spread bool, args ...*E) *E { return &E{K: "append", Ty: ts, X: x, Args: args, Spread: spread} }
+	fns := []*Func{
+		{Name: "app1_" + tag, Params: []string{"s", "x"}, PTypes: []*Ty{ts, TInt}, Results: []*Ty{ts}, Body: []*S{ret(app(sv, false, xv))}},
+		{Name: "app2_" + tag, Params: []string{"s"}, PTypes: []*Ty{ts}, Results: []*Ty{ts}, Body: []*S{ret(app(sv, false, lit(TInt, 4), lit(TInt, 5)))}},
+		{Name: "appS_" + tag, Params: []string{"s", "t"}, PTypes: []*Ty{ts, ts}, Results: []*Ty{ts}, Body: []*S{ret(app(sv, true, tv))}},
+		{Name: "cnt_" + tag, Params: []string{"s"}, PTypes: []*Ty{ts}, Results: []*Ty{TInt}, Body: []*S{ret(lenOf(sv))}},
+		{Name: "low_" + tag, Params: []string{"x"}, PTypes: []*Ty{TInt}, Results: []*Ty{TUint8}, Body: []*S{ret(&E{K: "conv", Ty: TUint8, X: xv})}},
+	}
+	call := func(i int, t *Ty, args ...*E) *E { return &E{K: "call", Fn: fns[i].Name, Ty: t, NRes: 1, Args: args} }
+	l := func(xs ...int64) *E {
+		e := &E{K: "slicelit", Ty: ts}
+		for _, x := range xs {
+			e.Args = append(e.Args, lit(TInt, x))
+		}
+		return e
+	}
+	a, b := int64(1+r.Intn(8)), int64(10+r.Intn(80))
+	body := []*S{
+		dcl("u", call(0, ts, l(a), lit(TInt, b))),
+		pr(sS("app1"), lenOf(v("u", ts)), &E{K: "index", Ty: TInt, X: v("u", ts), I: lit(TInt, 1)}),
+		dcl("w", call(1, ts, l(a, a+1))),
+		pr(sS("app2"), lenOf(v("w", ts)), &E{K: "index", Ty: TInt, X: v("w", ts), I: lit(TInt, 2)}, &E{K: "index", Ty: TInt, X: v("w", ts), I: lit(TInt, 3)}),
+		dcl("y", call(2, ts, l(), l(b, b+1, b+2))),
+		pr(sS("appS"), lenOf(v("y", ts)), &E{K: "index", Ty: TInt, X: v("y", ts), I: lit(TInt, 2)}, call(3, TInt, call(2, ts, l(1), call(1, ts, l(2))))),
+		pr(sS("low"), call(4, TUint8, lit(TInt, 300+a)), call(3, TInt, call(0, ts, call(0, ts, l(), lit(TInt, 1)), lit(TInt, 2)))),
+		ret(bin("+", TInt, lenOf(v("u", ts)), lenOf(v("y", ts)))),
+	}
+	name := "appendDemo" + tag
+	p.Funcs = append(append([]*Func{{Name: name, Results: []*Ty{TInt}, Body: body}}, fns...), p.Funcs...)
+	return pr(sS("append"), &E{K: "call", Fn: name, Ty: TInt, NRes: 1})
+}
